@@ -91,7 +91,7 @@ fn tables(cli: &Cli, rep: &mut Report) {
 }
 
 fn trackers(cli: &Cli, rep: &mut Report) {
-    let n = cli.cases(100, 4000);
+    let n = cli.cases(200, 4000);
     for k in cli.index_range(n) {
         if k >> 48 != 0 {
             continue;
